@@ -178,7 +178,7 @@ class PE(BinFormat):
             if sta % self.Opt.FileAlignment:
                 logger.warning("bad file alignment for section %s" % S.Name)
             sto = sta + S.SizeOfRawData
-            bytes_ = self.data[sta:sto].ljust(S.VirtualSize)
+            bytes_ = self.data[sta:sto].ljust(S.VirtualSize, b"\x00")
             if pagesize:
                 # note: bytes are not truncated, only extended if needed...
                 bytes_ = bytes_.ljust(pagesize, b"\x00")
